@@ -4,7 +4,8 @@
 From Coq Require Extraction.
 From Coq Require Import ExtrOcamlBasic.
 From Coq Require Import List ZArith QArith Qcanon.
-From GL Require Import Lib.Arr Lib.Blocks Model.Dom Model.Scalar Model.Reduce Spec.Defs Spec.Exec.
+From GL Require Import Lib.Arr Lib.Blocks Model.Dom Model.Scalar Model.Reduce Spec.Defs Spec.Exec
+  Model.Select Model.Cumulative Model.Rolling Model.Ema Spec.RowSpec.
 Extraction Language OCaml.
 Extraction "model.ml"
   Z.add Z.mul Z.opp Z.sub Z.div_eucl Z.of_nat Z.to_nat Z.eqb Z.ltb Z.leb Z.compare
@@ -12,4 +13,8 @@ Extraction "model.ml"
   Q2Qc Qcplus Qcmult Qcdiv Qcopp Qcminus this
   zops fops fl_of_Z
   group_func_wrap apply_single_chunk reduce_array_pair combine_factorized
-  spec_reduce red_exec sel_rows.
+  spec_reduce red_exec sel_rows
+  find_nth find_first_or_last_n nth_spec first_n_spec last_n_spec
+  cumulative cum_spec cumsum_noskip_spec
+  rolling_sum_or_mean rolling_max_or_min rolling_shift_or_diff window_spec shift_spec
+  ema_grouped ema_grouped_timed ema_adjusted decay_halflives ema_spec ema_timed_spec.
